@@ -37,6 +37,32 @@ SHAPES = {
     lines=["9429 9470 c1c2 c3c4", "9429 1370 c5c4"],
     texts=["ABCD", "ED\n\nABCD"],
     events=[(0, "begin", 0, 0, 2), (0, "end", 1, 0, 2), (1, "begin", 1, 0, 2)]),
+  # RCL ENM PAC14+indent4 `AB` italics `CD` TO2 `a` extended-A-acute (replaces the a) EOC | RCL ENM EOC
+  "pop-on-midrow-tab-ext": dict(
+    lines=["9420 94ae 9452 c1c2 91ae 43c4 97a2 6180 9220 942f", "9420 94ae 942f"],
+    texts=["AB CD  \u00c1"],
+    events=[(0, "begin", 0, 9, 9), (0, "end", 1, 2, 2)]),
+  # four rows 12..15
+  "pop-on-4rows": dict(
+    lines=["9420 94ae 1340 5231 13e0 5232 9440 52b3 94e0 5234 942f", "9420 94ae 942f"],
+    texts=["R1\nR2\nR3\nR4"],
+    events=[(0, "begin", 0, 10, 10), (0, "end", 1, 2, 2)]),
+  # `AB` `X` backspace `CD`
+  "pop-on-backspace": dict(
+    lines=["9420 94ae 94e0 c1c2 5880 94a1 43c4 942f", "9420 94ae 942f"],
+    texts=["ABCD"],
+    events=[(0, "begin", 0, 7, 7), (0, "end", 1, 2, 2)]),
+  # RU3 CR PAC15 `L1` | CR `L2` | CR `L3` | CR `L4` (the window of three rows scrolls L1 out)
+  "roll-up-3": dict(
+    lines=["9426 94ad 94e0 4c31", "94ad 4c32", "94ad 4cb3", "94ad 4c34"],
+    texts=["L1", "L1\nL2", "L1\nL2\nL3", "L2\nL3\nL4"],
+    events=[(0, "begin", 0, 0, 3), (0, "end", 1, 0, 0), (1, "begin", 1, 0, 1), (1, "end", 2, 0, 0), (2, "begin", 2, 0, 1), (2, "end", 3, 0, 0),
+            (3, "begin", 3, 0, 1)]),
+  # RDC PAC14 `AB` PAC15 `CD` | RDC PAC13 `EF`
+  "paint-on-2": dict(
+    lines=["9429 9440 c1c2 94e0 43c4", "9429 13e0 4546"],
+    texts=["AB", "AB\nCD", "EF\nAB\nCD"],
+    events=[(0, "begin", 0, 0, 2), (0, "end", 0, 3, 4), (1, "begin", 0, 3, 4), (1, "end", 1, 0, 2), (2, "begin", 1, 0, 2)]),
   # the two known findings about time, as separate harnesses
   "pop-on-doubled": dict(
     lines=["9420 9420 94ae 94ae 9470 9470 c1c2 942f 942f", "9420 9420 94ae 94ae 942f 942f"],
